@@ -3,7 +3,7 @@ import itertools
 
 from .. import taps
 from ..core import canon_hash
-from ..direct import DirectRun, gen_history
+from ..direct import DirectRun, gen_deep_cancel_history, gen_history
 from ..tracker import BookTracker
 
 RULE = (
@@ -32,6 +32,10 @@ def budget(tier):
 
 
 def gen_case(rng, tier, idx):
+    if idx % 10 in (7, 8):
+        c = gen_deep_cancel_history(rng, tier)
+        c["drive"] = "direct"
+        return c
     if idx % 10 == 9:
         from ..runnerdrive import gen_runner_case
 
